@@ -152,6 +152,16 @@ struct Case {
     companion: Option<(u64, u64, u64)>,
 }
 
+struct Companion {
+    parser: Option<CsvLineParser<std::io::Cursor<Vec<u8>>, PrecisDerivedProperty>>,
+    exp: Vec<Entry>,
+    k: usize,
+    rng: Rng,
+    bytes: Vec<u8>,
+    on_thread: bool,
+    thread_budget: u32,
+}
+
 /// The companion's registry file: a pure function of (seed, idx), never corrupted.
 fn companion_file(seed: u64, idx: u64) -> FileModel {
     let mut rng = Rng::derive(seed, idx, 23);
@@ -200,6 +210,8 @@ struct Outcome {
     used_fold: bool,
     used_fifo: bool,
     companion_items: u64,
+    companion_thread_steps: u64,
+    companion_recreated: u64,
     /// after a hard read error: did the parser deliver an error item (at all / not at the failing call itself)?
     failure_reported: bool,
     failure_reported_late: bool,
@@ -241,11 +253,23 @@ fn run_case(case: &Case, scratch: Option<&Path>) -> Outcome {
     let mut out = Outcome {
         violation: None, trace: vec![], stats: ReadStats::default(), items: 0, delivered_ok: 0, delivered_err: 0,
         hard_fired_at_call: None, rows_after_hard_error: 0, of_which_not_in_file: 0, max_error_line: 0, asked_after_none: 0,
-        line_longer_than_buffer: data.split(|b| *b == b'\n').any(|l| l.len() > 8192), longest_line: data.split(|b| *b == b'\n').map(|l| l.len() + 1).max().unwrap_or(0), used_nth: false, used_count: false, used_fold: false, used_fifo: false, companion_items: 0, failure_reported: false, failure_reported_late: false, history_hash: 0,
+        line_longer_than_buffer: data.split(|b| *b == b'\n').any(|l| l.len() > 8192), longest_line: data.split(|b| *b == b'\n').map(|l| l.len() + 1).max().unwrap_or(0), used_nth: false, used_count: false, used_fold: false, used_fifo: false, companion_items: 0, companion_thread_steps: 0, companion_recreated: 0, failure_reported: false, failure_reported_late: false, history_hash: 0,
     };
     let max_calls = expected.len() + 8;
     let mut hh = hash_bytes(&data);
 
+    // the companion parser task (see Case::companion): created before or after the observed parser
+    let mut comp: Option<Companion> = case.companion.map(|(s, ix, sched)| {
+        let f = companion_file(s, ix);
+        let mut rng = Rng::new(sched);
+        let created_first = rng.chance(1, 2);
+        let on_thread = rng.chance(1, 4);
+        let bytes = f.bytes();
+        Companion {
+            parser: if created_first { Some(CsvLineParser::from_reader(std::io::Cursor::new(bytes.clone()))) } else { None },
+            exp: f.expectations(), k: 0, rng, bytes, on_thread, thread_budget: 48,
+        }
+    });
     // the system under test: the real line iterator over the simulated reader (or a real file)
     let mut via_file: Option<CsvLineParser<std::fs::File, PrecisDerivedProperty>> = None;
     let mut via_sim: Option<CsvLineParser<SimReader, PrecisDerivedProperty>> = None;
@@ -283,33 +307,56 @@ fn run_case(case: &Case, scratch: Option<&Path>) -> Outcome {
     } else {
         via_sim = Some(CsvLineParser::from_reader(rdr));
     }
-    // the companion parser task (see Case::companion)
-    let mut comp: Option<(CsvLineParser<std::io::Cursor<Vec<u8>>, PrecisDerivedProperty>, Vec<Entry>, usize, Rng)> = case.companion.map(|(s, ix, sched)| {
-        let f = companion_file(s, ix);
-        (CsvLineParser::from_reader(std::io::Cursor::new(f.bytes())), f.expectations(), 0usize, Rng::new(sched))
-    });
     let mut comp_violation: Option<Violation> = None;
     let mut comp_items = 0u64;
-    let mut comp_step = |comp: &mut Option<(CsvLineParser<std::io::Cursor<Vec<u8>>, PrecisDerivedProperty>, Vec<Entry>, usize, Rng)>| {
-        if let Some((p, exp, k, rng)) = comp.as_mut() {
-            let pulls = rng.below(4);
+    let mut comp_threads = 0u64;
+    let mut comp_recreated = 0u64;
+    let mut comp_step = |comp: &mut Option<Companion>| {
+        if let Some(c) = comp.as_mut() {
+            // now and then the companion is dropped half-way through its file and a new one starts
+            // from the top: parsers are created and dropped while the observed one is in mid-file
+            if c.parser.is_some() && c.k > 0 && c.k <= c.exp.len() && c.rng.chance(1, 24) {
+                c.parser = None;
+                c.k = 0;
+                comp_recreated += 1;
+            }
+            let pulls = c.rng.below(4);
             for _ in 0..pulls {
-                if comp_violation.is_some() || *k > exp.len() {
+                if comp_violation.is_some() || c.k > c.exp.len() {
                     break;
                 }
-                let got = match std::panic::catch_unwind(std::panic::AssertUnwindSafe(|| p.next())) {
-                    Ok(x) => classify(x),
-                    Err(_) => Got::Panic,
+                if c.parser.is_none() {
+                    c.parser = Some(CsvLineParser::from_reader(std::io::Cursor::new(c.bytes.clone())));
+                }
+                let p = c.parser.as_mut().unwrap();
+                let got = if c.on_thread && c.thread_budget > 0 {
+                    // the same step on a helper OS thread that starts and exits around it: exactly one
+                    // thread runs at any time, so the run stays a function of the seed
+                    c.thread_budget -= 1;
+                    comp_threads += 1;
+                    std::thread::scope(|s| {
+                        s.spawn(|| match std::panic::catch_unwind(std::panic::AssertUnwindSafe(|| p.next())) {
+                            Ok(x) => classify(x),
+                            Err(_) => Got::Panic,
+                        })
+                        .join()
+                        .unwrap_or(Got::Panic)
+                    })
+                } else {
+                    match std::panic::catch_unwind(std::panic::AssertUnwindSafe(|| p.next())) {
+                        Ok(x) => classify(x),
+                        Err(_) => Got::Panic,
+                    }
                 };
                 comp_items += 1;
-                let bad = match exp.get(*k) {
+                let bad = match c.exp.get(c.k) {
                     Some(e) => judge(&e.exp, &got, e.line).map(|kind| (kind, e.line, expect_to_json(&e.exp))),
-                    None => if got == Got::None { None } else { Some(("extra_row", exp.len() as u64 + 2, json!("None (end of file)"))) },
+                    None => if got == Got::None { None } else { Some(("extra_row", c.exp.len() as u64 + 2, json!("None (end of file)"))) },
                 };
                 if let Some((kind, line, expected)) = bad {
-                    comp_violation = Some(Violation { kind: kind.into(), index: *k, line, expected, got: got_to_json(&got), row_class: "companion_parser".into(), row_text: String::new() });
+                    comp_violation = Some(Violation { kind: kind.into(), index: c.k, line, expected, got: got_to_json(&got), row_class: "companion_parser".into(), row_text: String::new() });
                 }
-                *k += 1;
+                c.k += 1;
             }
         }
     };
@@ -555,13 +602,15 @@ fn run_case(case: &Case, scratch: Option<&Path>) -> Outcome {
     if out.violation.is_none() {
         for _ in 0..2000 {
             match comp.as_ref() {
-                Some((_, exp, k, _)) if *k <= exp.len() => comp_step(&mut comp),
+                Some(c) if c.k <= c.exp.len() => comp_step(&mut comp),
                 _ => break,
             }
         }
     }
     drop(comp_step);
     out.companion_items = comp_items;
+    out.companion_thread_steps = comp_threads;
+    out.companion_recreated = comp_recreated;
     if out.violation.is_none() {
         out.violation = comp_violation;
     }
@@ -861,6 +910,8 @@ fn worker(seed: u64, from: u64, to: u64, tier: &str, scratch: &Path) -> (Value, 
         if case.companion.is_some() {
             bump("probe_runs_with_interleaved_companion_parser", 1);
             bump("probe_companion_parser_items_judged", o.companion_items);
+            bump("probe_companion_parser_steps_on_a_helper_thread", o.companion_thread_steps);
+            bump("probe_companion_parser_dropped_half_way_and_recreated", o.companion_recreated);
         }
         distinct.insert(o.history_hash);
         if o.stats.split_inside_line > 0 || o.stats.eintr > 0 || o.stats.hard_errors > 0 || case.torn_at.is_some() || ncorrupt > 0 {
